@@ -10,7 +10,7 @@ CfQuick    == {Cf(1, 0, StA), Cf(2, 0, StA), Cf(2, 4, StA), Cf(1, 0, StM)}
 CfThorough == {Cf(cp, mb, st) : cp \in {1, 2}, mb \in {0, 4, 6}, st \in {StA, StM}}
 CfEnv      == {Cf(1, 0, StA), Cf(2, 4, StA)}
 CfEnvThorough == {Cf(cp, mb, StA) : cp \in {1, 2}, mb \in {0, 4, 6}}
-Cf3        == {Cf(1, 0, StA), Cf(2, 4, StA)}
+Cf3        == {Cf(1, 0, StA)}
 CfBeh      == {Cf(1, 0, StA), Cf(2, 4, StA)}
 CfSim      == {Cf(cp, mb, st) : cp \in {1, 2, 3}, mb \in {0, 4, 6, 9}, st \in {StA, StM, [A |-> "c2", B |-> "c1"]}}
 BehaviourExport ==
